@@ -62,7 +62,8 @@ class Unit:
 class BmcUnit:
     """Bounded stand-in: real lowered bodies (no contracts), plain cbmc with --unwind K --unwinding-assertions."""
     def __init__(self, id, fns, harness, prelude, unwind, bound_text, props=(), opaque=None, stubs=(), tier='quick',
-                 timeout=1800, defines=(), note='', backend='cadical', mem_gb=24, object_bits=8, unwindset=()):
+                 timeout=1800, defines=(), note='', backend='cadical', mem_gb=24, object_bits=8, unwindset=(), post_c=''):
+        self.post_c = post_c      # prelude text that needs the lowered record types (emitted after them)
         self._unwindset = list(unwindset)
         self.id = id
         self.fns = list(fns)
@@ -103,6 +104,8 @@ def check_bmc(ast, unit, wd):
         parts = ['#define %s' % d for d in unit.defines]
         parts.append('#include "%s"' % unit.prelude)
         parts.append(L.emit_types())
+        if getattr(unit, 'post_c', ''):
+            parts.append(unit.post_c)
         parts += [f.proto + ';' for f in fns]
         parts += [cdns2c.render(f) for f in fns]
         parts.append('void harness(void)\n{\n%s\n}\n' % unit.harness)
